@@ -18,9 +18,10 @@ CHECKS = {
             "opener -> wt (preamble under harness control, every type/session-id varint length, every cut set, settle/no-settle, payload "
             "glued to the last preamble piece) and wt opener -> raw reader (wire bytes compared with the minimal preamble + payload); six data "
             "directions; payload lengths across varint/window boundaries up to several flow-control windows (1 KiB stream window); all write "
-            "compositions for short payloads and boundary families beyond; read / read_exact / AsyncRead with six buffer sizes; 1-3 (8) "
-            "concurrent streams in three write orders; payloads that begin with preamble look-alikes; select! start deviations on the accept "
-            "path. Oracle: received bytes == sent bytes then end-of-stream, stream ids agree, no stream delivered twice. Part 'credit': "
+            "compositions for short payloads and boundary families beyond; read / read_exact / AsyncRead with six buffer sizes; 1, 2, 3, 8 "
+            "(thorough: also 20, 50, 90 of the transport's 100) concurrent streams in three write orders; payloads that begin with preamble "
+            "look-alikes; one select! start deviation in the first 12 polls of the accept path (thorough: 24 polls, and pairs of deviations; "
+            "every payload length 0..300 and each side of every window / packet boundary; triples of preamble cuts). Oracle: received bytes == sent bytes then end-of-stream, stream ids agree, no stream delivered twice. Part 'credit': "
             "1-3 streams of each kind (uni / bidi / bidi with echo) opened by either role while exactly 0..5 bytes of connection send "
             "budget remain (quinn send_window with acknowledgements withheld by the simulated network; each scenario is calibrated by "
             "a separate run in which exactly that many one-byte writes are accepted and the next one pends), payloads of 0..9000 bytes "
@@ -63,15 +64,17 @@ CHECKS = {
             "established session stream, GREASE + close capsule on it - cut at every single position (every pair for short messages), with "
             "one of 7 events between the pieces (nothing, own datagram, foreign datagram, complete WT uni stream, complete WT bidi stream, "
             "GREASE frame on the other critical stream, QPACK encoder stream), with and without a virtual-time settle before / after the "
-            "event, plus every single (thorough: pairs of) non-zero select! start index among the worker's 9-branch and 5-branch select "
-            "polls in the window. The outcome class (session established and a probe stream delivered / terminated with exactly (code, "
+            "event, plus every single non-zero select! start index in the first 40 polls of the worker's 9-branch and 5-branch selects and "
+            "pairs of them in the first 8 (thorough: all cut pairs and triples of cuts around the frame header, the deviations at every "
+            "third cut position x every event, 80 polls, all pairs of start values in the first 14 polls). The outcome class (session established and a probe stream delivered / terminated with exactly (code, "
             "reason) / error / hang) and the required deliveries must equal those of the unsegmented baseline of the same message.",
             SIM_NOTE + " The multi-thread runtime named in the property's quantifier is not covered (see DESIGN.md §8).",
             "exhaustive enumeration of cut positions x interleaved events x select! branch-start choices on the real driver (deterministic simulation), metamorphic oracle"),
     "C06": ("simx", "exploration", "DESIGN.md §6-C06",
             "wt<->wt and raw<->wt (raw peer as writer and as reader, both roles) x six data directions x {reset(c), stop(c), finish, finish "
             "with all acknowledgements withheld and later released} x phase {before any byte, after k bytes written and read, written and "
-            "unread, after finish} x 10 codes across every varint length up to 2^62-1. Oracle: the reader sees a prefix of the written bytes "
+            "unread, after finish} x 10 codes across every varint length up to 2^62-1 (thorough: every 2^k and 2^k-1 below 2^62 and the "
+            "registered HTTP/3 / WebTransport codes, 140 values). Oracle: the reader sees a prefix of the written bytes "
             "then Reset(c); after stop(c) stopped(), write, write_all and finish all report Stopped(c); the raw peer sees RESET_STREAM / "
             "STOP_SENDING with exactly c; finish() stays pending while acknowledgements are withheld - also when the pending finish() is "
             "cancelled and issued again, three times - completes Ok after release, and the reader then gets all bytes and end-of-stream; "
@@ -79,11 +82,12 @@ CHECKS = {
             "re-issued finish() and by stopped().",
             SIM_NOTE, "exhaustive enumeration of a bounded scenario grid executed on the real stack under a deterministic simulated environment"),
     "C07": ("simx", "fault_enumeration", "DESIGN.md §6-C07",
-            "Fault = k (1..5, thorough 6) peer-opened streams of kind uni/bidi stalled at one of 7 positions (no byte at all; first byte of "
+            "Fault = k (1..6) peer-opened streams of kind uni/bidi stalled at one of 7 positions (no byte at all; first byte of "
             "the type; type only; first byte of a 2-byte session id; complete preamble then silence; preamble + one flow-control window "
             "nobody reads; accepted by the application and never read) x 3 opening orders x both roles, plus mixed kinds / positions "
-            "(thorough: all position pairs), plus many stalled streams - k in {17, 40} (thorough {8, 16, 17, 32, 64, 90}, up to the "
-            "transport's limit of 100) of one kind and of alternating kinds, so that any fixed pool of pending-header slots is exhausted. "
+            "and all position pairs, plus many stalled streams - k in {8, 16, 17, 32, 64, 90} (thorough: every k in 1..90 for the four "
+            "incomplete-preamble positions, and all position triples; the transport's limit is 100) of one kind and of alternating kinds, so "
+            "that any fixed pool of pending-header slots is exhausted. "
             "After the faults the raw peer opens a healthy uni and a healthy bidi stream, sends a datagram "
             "and finally a clean close capsule while the application keeps accepting; every victim must be delivered (own bytes) and the "
             "close reported as ApplicationClosed(0, \"\") before a 10 s virtual horizon with keep-alives on.",
@@ -91,7 +95,8 @@ CHECKS = {
             "exhaustive fault enumeration executed on the real stack under a deterministic simulated environment"),
     "C08": ("simx", "exploration", "DESIGN.md §6-C08",
             "Opener (raw peer or wtransport peer) opens N uniquely tagged streams (N in 1,2,3,5,9 and 12 = 3x a concurrent-stream limit of "
-            "4) in 4 uni/bidi patterns towards either role; the application accepts with 1-3 concurrent tasks, with 10 ms / 1 s between "
+            "4; thorough: N in 1..9,17,33,60,90 and 9/30/45 streams against limits of 2/7/10, cancellation at each of the first 33 indexes, "
+            "select! deviations in 60 polls and in pairs) in 4 uni/bidi patterns towards either role; the application accepts with 1-3 concurrent tasks, with 10 ms / 1 s between "
             "accepts, with every accept future polled 0..3 times then dropped and reissued, and with that cancellation applied at each single "
             "stream index; plus select! start deviations on the worker loop. Oracle: the multiset of (kind, stream id, bytes) returned by "
             "accept calls equals the multiset opened - nothing lost, duplicated, invented or carrying another stream's bytes - before the horizon.",
@@ -99,13 +104,14 @@ CHECKS = {
     "C09": ("simx", "fault_enumeration", "DESIGN.md §6-C09",
             "Part 'driver' (fault enumeration on the running stack): termination cause in {peer QUIC close x 4 code/reason pairs, peer close "
             "capsule x 3, peer FIN, local close x 4, four peer-induced local protocol errors, network partition -> idle timeout, all handles "
-            "dropped with 0..2 uni and 0..2 bidi peer streams still inside their preamble} x role x number of cloned handles. Nine kinds of "
+            "dropped with 0..2 (thorough 0..8) uni and 0..2 (0..8) bidi peer streams still inside their preamble; thorough also every "
+            "single-bit close code} x role x number of cloned handles. Nine kinds of "
             "calls are pending when the cause is raised (accept_uni, accept_bi, receive_datagram, closed, open_uni / open_bi with stream "
             "credit exhausted, read without data, write against a full window, stopped) and six more are issued afterwards; each must "
             "complete within 2 s of virtual time with a result in the cause's allowed set (the exact cause, or LocallyClosed where the library "
             "shut the transport down itself; NotConnected for stream calls), no panic anywhere; after 'all handles dropped' the peer must see "
             "the connection closed well before its idle timeout. Part 'utils' (model checking of driver::utils through hook H3): every "
-            "schedule with <= 3 (4) deviations, from two default orders, of shared_result harnesses (1-2 setters setting or dropping, 1-3 "
+            "schedule with <= 4 (thorough 5) deviations, from two default orders, of shared_result harnesses (1-2 setters setting or dropping, 1-3 "
             "getters with 1-2 result() calls each, any subset cancelling and reissuing its first pending call, optional closed()-waiter) and "
             "bichannel harnesses (capacity 1-2, send / try_send, duplex, receiver dropping early): all readers agree on the first set, None "
             "only if nobody ever sets, set() true exactly once, FIFO / no loss / no duplication, Closed only after the other end is gone, no deadlock.",
@@ -113,7 +119,8 @@ CHECKS = {
             "exhaustive fault enumeration on the real stack (deterministic simulation) + deviation-bounded exhaustive schedule exploration of the real utils on a controlled task scheduler"),
     "C16": ("simx", "exploration", "DESIGN.md §6-C16",
             "A raw quinn peer records every byte the endpoint emits (both roles) over a grid of requests, decisions, header singletons, "
-            "stream sets, datagram lengths and CONNECT stream ids (session ids crossing varint lengths) and the independent reference codec "
+            "stream sets, datagram lengths, CONNECT stream ids (session ids crossing varint lengths) and raw peers that grant only 1..64 bytes "
+            "of stream credit at a time (SETTINGS, HEADERS and preambles are then written piecemeal), and the independent reference codec "
             "must decode all of it: ALPN h3; exactly one control stream whose first and only SETTINGS carries ENABLE_WEBTRANSPORT=1, "
             "H3_DATAGRAM=1, ENABLE_CONNECT_PROTOCOL=1, zero QPACK capacity, no reserved / duplicate ids; no other non-WT, non-QPACK, "
             "non-GREASE uni stream; field sections with RIC=0/base=0, static or literal lines only, pseudo-headers first, no duplicates, "
@@ -124,7 +131,9 @@ CHECKS = {
     "C11": ("protox", "exploration", "DESIGN.md §6-C11",
             "Every network-facing decoder (varints, frames x3 paths, stream headers x3 paths + uni upgrade, SETTINGS, QPACK field sections, "
             "datagrams, capsules + close capsule, the four frame-reading typestates x3 paths) is executed on all byte strings up to length 3 "
-            "(4 in the thorough tier), all strings over a 33-byte critical alphabet up to length 5 (6), every truncation / substitution / "
+            "(thorough: all 2^32 strings of length 4 for the varint, frame, stream-header and datagram decoders), all strings over a 33-byte "
+            "critical alphabet up to length 5 (frames, QPACK, capsules; thorough: every decoder, and length 6 for those three; 2.2e10 decoder "
+            "runs per build, about 30 min on 16 cores), every truncation / substitution / "
             "insertion / deletion of a 60-item valid corpus and structured adversarial families (prefix integers with 0..12 continuation bytes "
             "in every QPACK context, length fields at/beyond every limit, edge ids), in two builds (release; overflow-checks + debug-assertions). "
             "Oracle: no panic, per-call allocation <= 16*len + 64 KiB, termination (watchdog), type invariants of returned values, and equality "
@@ -136,11 +145,11 @@ CHECKS = {
     "C12": ("protox+simx", "model_checking", "DESIGN.md §6-C12, Appendix A",
             "Two reference rule machines written from RFC 9114 / draft-ietf-webtrans-http3 are explored breadth-first and EVERY trace they "
             "generate up to the depth bound is replayed against the implementation. Part 'typestates': per stream role (request stream, "
-            "locally opened bidi, control, session) x {first frame seen, only noise so far, dead} over a 15-symbol frame alphabet, depth 3 "
-            "(5); each trace through read_frame, read_frame_from_buffer and read_frame_async; the returned frames / numeric error code "
+            "locally opened bidi, control, session) x {first frame seen, only noise so far, dead} over a 15-symbol frame alphabet, depth 5 "
+            "(thorough 7); each trace through read_frame, read_frame_from_buffer and read_frame_async; the returned frames / numeric error code "
             "must be the prescribed ones; plus the numeric registry of error codes, frame types and stream types. Part 'driver': "
             "connection-level machine (control stream absent / type only / SETTINGS seen / closed, QPACK streams, CONNECT pending, session "
-            "established, datagram queued, dead) over 52 peer events (server role) / 24 (client role), depth 3 (4), replayed by a raw quinn "
+            "established, datagram queued, dead) over 52 peer events (server role) / 24 (client role), depth 4 (thorough 5: 3.7 M histories), replayed by a raw quinn "
             "peer against the running driver on the simulated network; after every event the reaction (alive, session offered + 200, request "
             "stream refused, CONNECTION_CLOSE code) must be the prescribed one and after a permitted history a valid session must still be accepted.",
             SIM_NOTE + " Cells the specifications leave open (Appendix A: '-') end a trace without a verdict.",
@@ -148,19 +157,24 @@ CHECKS = {
     "C13": ("protox+simx", "exploration", "DESIGN.md §6-C13",
             "Metamorphic, two parts. 'readers': baseline frame sequences per typestate reader with 1..3 inserted elements at every position "
             "(unassigned frame types in 1/2/4/8-byte encodings, CANCEL_PUSH / GOAWAY / MAX_PUSH_ID on the control stream, GREASE types in "
-            "every varint length; payload lengths 0,1,2,7,63,64,4096 and payloads that are themselves serialized SETTINGS / WT signal / "
-            "HEADERS), three read paths; unknown / GREASE setting ids at every SETTINGS position; unknown capsule types. 'driver': the same "
+            "every varint length; payload lengths 0,1,2,7,63,64,4096 (thorough: every length 0..300 and around 512/1024/4096, zero and "
+            "frame-look-alike contents) and payloads that are themselves serialized SETTINGS / WT signal / HEADERS), three read paths on "
+            "whole reads, the async path additionally with 1/2/3/7/61-byte reads with and without Pending, and the sans-IO paths fed a "
+            "growing buffer on one stream object; unknown / GREASE setting ids at every SETTINGS position; unknown capsule types. 'driver': the same "
             "kind of insertions (plus whole unknown / GREASE uni streams with 0/1/100 bytes left open / FIN / RESET, unknown capsules in DATA, "
-            "unknown settings) into a complete live exchange in both roles; the outcome (session established, probe stream delivered, "
+            "unknown settings) into a complete live exchange in both roles, with the raw peer writing in one piece and cut into 1- / 2- / "
+            "5- / 300-byte pieces that travel in separate packets; the outcome (session established, probe stream delivered, "
             "streams handed to the application, reported end (7, \"bye\")) must equal the baseline without insertions.",
             SIM_NOTE + " Domain: inserted frames of at most 4096 payload bytes (the reader's documented frame cap).",
             "exhaustive enumeration of insertion positions x element shapes on the real readers and the real driver, metamorphic oracle"),
     "C14": ("protox", "exploration", "DESIGN.md §6-C14",
-            "Bounded-exhaustive enumeration of values of every wire type (all varints below 2^20/2^30 plus every 2^k±16, every frame "
+            "Bounded-exhaustive enumeration of values of every wire type (all varints below 2^30 (thorough 2^32) plus every 2^k±16, every frame "
             "kind x every payload length 0..4096, boundary session ids, builder subsets x boundary values, header maps over "
             "name/value pools crossing every QPACK prefix-integer boundary, datagram ids x lengths, every destination capacity "
             "around the exact size) executed on the real encoders/decoders and compared byte-for-byte with an independent "
-            "reference codec; cross-implementation decode in every legal representation.",
+            "reference codec; cross-implementation decode in every legal representation; every asynchronous encoder (put_varint, put_buffer, "
+            "Frame::write_async, StreamHeader::write_async) into scripted sinks that accept 1..13 bytes per write with Pending patterns, and "
+            "into a destination that stops half way.",
             "Trusts refcodec (RFC vectors pinned in its unit tests). Values outside the enumerated families (most of 2^62) are not covered.",
             "bounded-exhaustive input enumeration on the implementation vs. reference codec"),
     "C15": ("protox", "exploration", "DESIGN.md §6-C15",
@@ -168,17 +182,20 @@ CHECKS = {
             "unknown types, invalid session ids, oversize lengths; singles and ordered pairs) and each of 7 reader subjects (Frame, StreamHeader, "
             "the four frame-reading typestates, the uni-stream upgrade): the one-shot, buffered and async paths are executed on the whole input, "
             "on every proper prefix, with reset / not-connected injected at every read index, under every chunking of the source (all compositions "
-            "up to 9/12 bytes, header-region compositions beyond) combined with every Pending pattern of at most 2/3 Pendings, and with a stalling "
-            "source to detect over-read. All results must agree in value / error class / bytes consumed; buffered offsets must only move by whole elements.",
+            "up to 12 (thorough 14) bytes, header-region compositions beyond) combined with every Pending pattern of at most 3 (4) Pendings, with a "
+            "stalling source to detect over-read, and with the sans-IO readers used incrementally on ONE stream object (input available in the "
+            "steps of every chunking; per-stream decoding state may only advance when an element was decoded). All results must agree in value / error class / bytes consumed; buffered offsets must only move by whole elements.",
             "The scripted source is a complete model of the async decoders' environment (they keep no state outside the future). Corpus is finite; "
             "element boundaries come from refcodec.",
             "exhaustive enumeration of read chunkings x Pending schedules x fault points on the real decoders (controlled scheduler for sans-IO futures)"),
     "C17": ("protox+simx", "exploration", "DESIGN.md §6-C17",
-            "'pure' (two build profiles, so the debug_assert!s next to the unchecked constructors are armed): every id below 2^20 (2^26) and "
+            "'pure' (two build profiles, so the debug_assert!s next to the unchecked constructors are armed): every id below 2^26 (thorough 2^30) and "
             "every 2^k+d up to 2^62 through stream-id classification (RFC 9000 §2.1 computed arithmetically), session-id validation, the "
             "session / stream / quarter id conversions and the datagram wire path, incl. quarter ids beyond 2^60-1. 'live': a raw peer sends "
             "uni streams, bidi streams and datagrams naming valid but non-existent sessions (ids 4, 8, 2^22, 2^62-4; payload 0/5/2000 bytes; "
-            "left open / FIN / RESET) before, between and after live-session traffic and in mixed bursts, in both roles, while the "
+            "left open / FIN / RESET) before, between and after live-session traffic, in mixed bursts, and before the session exists (every "
+            "non-empty subset of foreign datagram / uni / bidi sent before the peer's SETTINGS and request, while the request is pending at a "
+            "server application that accepts 1 s later, or before the raw server's response), in both roles, while the "
             "application keeps accepting: no foreign payload is delivered, foreign streams are refused with 0x3994bd84, live traffic is "
             "all delivered, the connection stays open, nothing panics.",
             SIM_NOTE, "bounded-exhaustive enumeration of ids (two build profiles) + exhaustive scenario grid on the real driver (deterministic simulation)"),
@@ -188,7 +205,7 @@ CHECKS = {
             "response path over every decimal 0..=65535 and decorated forms; Default and the constants; insert() over reserved and "
             "near-reserved names; SessionRequest::new over https / non-https URLs. 'live': a raw client sends each of the 3^5 requests to a "
             "running server followed by a valid request (refused on its own stream only, the valid one is still offered and answered 200); a "
-            "raw server answers connect with every status 0..=999 (thorough 0..=65535), larger values, 18 malformed texts and no :status "
+            "raw server answers connect with every status 0..=65535, larger values, 18 malformed texts and no :status "
             "(Ok iff 200..=299, SessionRejected iff another valid status, else a local HTTP/3 error and a connection close); connect with "
             "reserved / non-reserved additional headers.",
             SIM_NOTE + " '+200' / '0200' style texts are unspecified.",
@@ -196,8 +213,8 @@ CHECKS = {
     "C10": ("simx", "exploration", "DESIGN.md §6-C10",
             "Complete grid of direct calls of the public ServerHashVerification::verify_server_cert with an injected clock: key algorithm "
             "(P-256, P-384, Ed25519; rcgen) x validity (1 s, 13 d, 14 d - 1 s, 14 d, 14 d + 1 s, 15 d, 365 d) x now (not_before -1/0/+1 s, "
-            "middle, not_after -1/0/+1 s; thorough +-60 s second by second and validity 14 d +-60 s) x hash set (empty, own, other, 31 others "
-            "+ own, 32 others); truncated / bit-flipped DER; and end to end on the simulated network 6 trust policies (hashes own / other / "
+            "middle, not_after -1/0/+1 s, +-60 s second by second, and validity 14 d +-60 s; thorough +-900 s, 14 d +-3600 s, 18 validities) x hash set (empty, own, other, 31 others "
+            "+ own, 32 others); truncated / bit-flipped DER (thorough: every single bit and every truncation); and end to end on the simulated network 6 trust policies (hashes own / other / "
             "empty, native roots, custom root store with the issuing CA, no validation) x 6 server identities (P-256 14 d, expired, not yet "
             "valid, 15 d, P-384, CA-signed leaf). Expected decision is computed from the generation parameters; a refused server must never "
             "yield a session request at the server application.",
@@ -220,16 +237,23 @@ CHECKS = {
             "endpoint would bind (hook H4) and through Endpoint::server / client + local_addr): family, address, port, IPV6_V6ONLY; TLS "
             "defaults by in-memory rustls handshakes against peers restricted to TLS 1.2 / 1.3 (only 1.3 + ALPN h3 may succeed); ALPN "
             "negotiation against raw QUIC peers offering h3 / hq-29 / both / nothing in both roles; all five builder paths handshaking on the "
-            "simulated network; idle timeout on each side in {default, 1 s, 5 s, (10 min), disabled} x keep-alive off / T/3 x partition / idle "
+            "simulated network; idle timeout on each side in {default, 1 s, 5 s, 10 min, disabled} x keep-alive off / T/3 x partition / idle "
             "healthy network measured in virtual time (TimedOut at min(T) / survives >= 6 T / never dies within 1 h); representability of "
-            "max_idle_timeout (0 .. Duration::MAX); client migration with allow_migration on / off; reload_config (new connections see the "
+            "max_idle_timeout (17 values from 0 over both sides of 2^62 ms and of 2^64 ms to Duration::MAX); client migration with allow_migration on / off; reload_config (new connections see the "
             "new identity and transport settings, the established connection keeps working).",
             SIM_NOTE + " Bind rows need IPv6 loopback (reported as uncovered otherwise); Linux forces IPV6_V6ONLY on non-wildcard binds, so the "
             "option is judged on wildcard binds only.",
             "exhaustive enumeration of finite configuration matrices on real sockets and on the real stack under deterministic simulation"),
 }
 
-NOT_YET = "check not built yet in this round (work in progress; see DESIGN.md §11 build order)"
+TIER_NOTE = {
+    "*": "Tiers: the engines know three grid depths; the quick tier runs depth 2 and the thorough tier depth 3 (recorded as "
+         "coverage.grid_depth in the evidence); bounds written 'a (thorough b)' above are those two depths.",
+    "C11": "Tiers: the quick tier runs grid depth 1 and the thorough tier depth 2 for this property (depth 2 takes several minutes on "
+           "16 cores, beyond the quick budget); coverage.grid_depth in the evidence records it.",
+}
+
+NOT_YET ="check not built yet in this round (work in progress; see DESIGN.md §11 build order)"
 
 
 def main():
@@ -254,7 +278,7 @@ def main():
                 "replay_cmd_template": f"./check {pid} --replay {{path}}",
                 "engine": engine,
                 "level_claimed": {"category": level, "text": text, "design_ref": ref},
-                "level_note": note,
+                "level_note": note + " " + TIER_NOTE.get(pid, TIER_NOTE["*"]),
                 "technique": tech,
             })
         else:
